@@ -44,7 +44,7 @@ from ..summaries import Summaries
 
 LEVEL = "other"
 META = {
-    "technique": "static analysis: closed-world who-may-construct over token classes (constructor calls reachable from fixes in the may-call graph, token instances and class references in the abstractly interpreted rule constructors), recognition of the documented redundant elements through the classifier's literal table, splice-discipline shape checks, literal-guard predicate evaluation",
+    "technique": "static analysis: closed-world who-may-construct over token classes (constructor calls reachable from fixes in the may-call graph, token instances and class references in the abstractly interpreted rule constructors), recognition of the documented redundant elements through the classifier's literal table, splice-discipline shape checks, literal-guard predicate evaluation; receiver-class dominance for every write of a blank value (must-guard on the same token expression)",
     "level_text": "Decides for all inputs which code tokens a fix can ever create, and that each is one of the documented redundant elements with exactly the text the parser "
     "would accept for that class; that literals are never re-cased; that only the splice primitive writes the token list and does so with consistent "
     "bounds; that late phases are structurally inert. Whether a structural rule's rewrite of its region keeps every existing code token is a run-time "
@@ -170,7 +170,12 @@ def run(ctx):
             for x in copies:
                 n_sites += 1
                 kk = "%s:copy@%s" % (e.unique_id, x.fi.key)
-                if r.tabled("C01.construct", "copy@" + x.fi.key):
+                src = x.node.args[0] if getattr(x.node, "args", None) else None
+                if isinstance(src, ast.Attribute) and isinstance(src.value, ast.Name) and src.value.id == "self" and src.attr in e.attrs and list(_token_instances(e.attrs[src.attr])):
+                    # a copy of the token instance(s) the rule's constructor built: those instances are vetted below
+                    # (class, literal, structure group); inserting a copy per violation is what keeps positions distinct
+                    r.ok("C01.construct", kk, "copy of the rule's own constructor-built token `self.%s` (the instance itself is checked as a constructor token)" % src.attr, sample=False)
+                elif r.tabled("C01.construct", "copy@" + x.fi.key):
                     r.ok("C01.construct", kk, "declaration-splitting fix duplicates the shared part of the declaration (documented)", sample=False)
                 elif active:
                     r.fail("C01.construct", kk, "fix of %s duplicates existing tokens (copy) - only the declaration-splitting fixes may do that" % e.unique_id, x.fi.loc(x.node))
